@@ -344,7 +344,7 @@ def check(case, res):
 
 def run(ctx):
     common.build("build/prod/opt_shim", "build/fuzz/fuzz_opts")
-    res = hyp.run_property(ctx, cases(), check, ctx.pick(16000, 600000))
+    res = hyp.run_property(ctx, cases(), check, ctx.pick(16000, 200000))
     import glob
     for f in sorted(glob.glob(os.path.join(common.ROOT, "regress", ctx.pid, "*.json"))):
         case = json.load(open(f))
@@ -356,7 +356,7 @@ def run(ctx):
     from .. import fuzzrun
     fres = common.Result()
     camp = fuzzrun.campaign(ctx, fres, os.path.join(common.BUILD, "fuzz", "fuzz_opts"), os.path.join(common.ROOT, "corpus", "C11"),
-                            ctx.pick(30000, 1500000), 600, "C11-ORACLE-VIOLATION", dictp=os.path.join(common.ROOT, "fuzz", "opts.dict"), nontrivial_key="set_any")
+                            ctx.pick(30000, 400000), 600, "C11-ORACLE-VIOLATION", dictp=os.path.join(common.ROOT, "fuzz", "opts.dict"), nontrivial_key="set_any")
     res.evaluations += fres.evaluations
     res.violations.extend(fres.violations)
     res.inconclusive += fres.inconclusive
